@@ -20,7 +20,38 @@ type caseC05 struct {
 	Aim  *Aim    `json:"aim,omitempty"`  // white-box: drive one cross product of the comparison to a chosen value
 }
 
-var c05rels = []string{"same", "neg", "endo", "endo-neg", "unrelated", "vs-identity", "id-id", "self", "line", "line"}
+var c05rels = []string{"same", "neg", "endo", "endo-neg", "unrelated", "vs-identity", "id-id", "self", "line", "line", "raw-xy"}
+
+// originLinePair returns two DISTINCT points P, Q on a common line through the origin (y = m x), starting the search at x0, and the
+// factor lambda = x_P / x_Q: the representation (lambda x_Q : lambda y_Q : lambda) of Q then has the same raw X and the same raw Y
+// as the affine P and differs in Z only (the curve equation is cubic in Z: X and Y do not determine the point).
+func originLinePair(x0 *big.Int) (p, q ref.Point, lambda *big.Int, ok bool) {
+	x := new(big.Int).Mod(x0, ref.P)
+	for i := 0; i < 64; i++ {
+		x.Add(x, bigOne).Mod(x, ref.P)
+		even, _, on := ref.LiftX(x)
+		if !on || x.Sign() == 0 {
+			continue
+		}
+		m := ref.FMul(even.Y, ref.FInv0(even.X))
+		a := ref.FSub(even.X, ref.FMul(m, m))
+		b := ref.FNeg(ref.FMul(big.NewInt(7), ref.FInv0(even.X)))
+		disc := ref.FSub(ref.FMul(a, a), ref.FMul(big.NewInt(4), b))
+		if !ref.IsSquare(disc) {
+			continue
+		}
+		x2 := ref.FMul(ref.FSub(ref.Sqrt(disc), a), ref.FInv0(big.NewInt(2)))
+		if x2.Sign() == 0 || x2.Cmp(even.X) == 0 {
+			continue
+		}
+		q = ref.Point{X: x2, Y: ref.FMul(m, x2)}
+		if !q.Valid() {
+			continue
+		}
+		return even, q, ref.FMul(even.X, ref.FInv0(x2)), true
+	}
+	return p, q, nil, false
+}
 
 func nonIdentityBase(t *rapid.T) pt.Base {
 	b := pt.BaseGen().Draw(t, "base")
@@ -53,6 +84,16 @@ var c05 = gen.Register(&gen.Check[caseC05]{
 			a = pt.Base{Kind: "line-p", X: gen.H(gen.Int(ref.P).Draw(t, "x")), Odd: rapid.Bool().Draw(t, "odd"), K: m}
 			b = a
 			b.Kind = "line-q"
+		case "raw-xy":
+			if p, q, lambda, ok := originLinePair(gen.Int(ref.P).Draw(t, "x0")); ok {
+				c.A = pt.Spec{Base: pt.Base{Kind: "liftx", X: gen.H(p.X), Odd: p.Y.Bit(0) == 1, Via: "limbs"}}
+				c.B = pt.Spec{Base: pt.Base{Kind: "liftx", X: gen.H(q.X), Odd: q.Y.Bit(0) == 1, Via: "coords"}, Steps: []pt.Step{{Op: "rescale", A: gen.H(lambda)}}}
+				if rapid.Bool().Draw(t, "swap") {
+					c.A, c.B = c.B, c.A
+				}
+				return c
+			}
+			c.Rel = "same"
 		case "unrelated":
 			b = pt.BaseGen().Draw(t, "b")
 		case "vs-identity":
@@ -133,6 +174,7 @@ var c05 = gen.Register(&gen.Check[caseC05]{
 		o.ClassIf(!want, "unequal")
 		shareX := !a.Model.Inf && !b.Model.Inf && a.Model.X.Cmp(b.Model.X) == 0 && !want
 		shareY := !a.Model.Inf && !b.Model.Inf && a.Model.Y.Cmp(b.Model.Y) == 0 && !want
+		o.ClassIf(!want && a.RawKnown && b.RawKnown && a.X.Cmp(b.X) == 0 && a.Y.Cmp(b.Y) == 0, "raw-x-and-y-equal")
 		o.ClassIf(shareX, "share-x")
 		o.ClassIf(shareY, "share-y")
 		diffRep := a.RawKnown && (a.X.Cmp(b.X) != 0 || a.Y.Cmp(b.Y) != 0 || a.Z.Cmp(b.Z) != 0)
